@@ -127,6 +127,7 @@ var (
 	tier          = "quick"
 	seed          int64
 	verifDir      = "/verif"
+	outDir        = "" // evidence/ and replays/ parent; defaults to verifDir (mutant runs point it elsewhere)
 	startTime     time.Time
 	assumptions   []string
 	rule          string
@@ -190,6 +191,10 @@ func Main(m *testing.M, prop, lvl string) {
 	}
 	if d := os.Getenv("VERIF_DIR"); d != "" {
 		verifDir = d
+	}
+	outDir = verifDir
+	if d := os.Getenv("VERIF_OUT_DIR"); d != "" {
+		outDir = d
 	}
 	if rp := os.Getenv("VERIF_REPLAY"); rp != "" {
 		var rf replayFile
@@ -336,7 +341,7 @@ func writeReplay(s *Section, f Failure) string {
 	rf := replayFile{Property: property, Section: s.Name, Tier: tier, Seed: seed, Choices: f.Choices, Labels: f.Labels, Key: f.Key, Description: f.Msg}
 	b, _ := json.MarshalIndent(rf, "", " ")
 	h := sha256.Sum256(b)
-	dir := filepath.Join(verifDir, "replays", property)
+	dir := filepath.Join(outDir, "replays", property)
 	_ = os.MkdirAll(dir, 0o755)
 	p := filepath.Join(dir, hex.EncodeToString(h[:6])+".json")
 	_ = os.WriteFile(p, b, 0o644)
@@ -413,7 +418,7 @@ func writeEvidence(violations int, knownSeen map[string]int) error {
 	if err != nil {
 		return err
 	}
-	dir := filepath.Join(verifDir, "evidence")
+	dir := filepath.Join(outDir, "evidence")
 	if err := os.MkdirAll(dir, 0o755); err != nil {
 		return err
 	}
